@@ -630,6 +630,7 @@ namespace photon
 
         // Must be called with spinlock held.
         void try_wake() {
+            PHOTON_VERIF_POINT(verif::GUARD, this, spin.locked(), 6);
             if (!cv_unique.notify_one()) {
                 cv_shared.notify_all();
             }
